@@ -77,6 +77,14 @@ def extended_defs(nb, staged=True, bunched=True):
     return out
 
 
+def skeleton_defs(tier):
+    """slices of F_8 reached through structure instead of size (DESIGN 13)"""
+    if tier == "quick":
+        return [("K", d) for n in (7, 8)
+                for d in fragment.skeletons(n, 3, chain=True, min_breaks=1)]
+    return [("K", d) for d in fragment.skeletons(8, 3)]
+
+
 def construct_tags(defn):
     return sorted(dsl.constructs(defn))
 
